@@ -61,6 +61,7 @@ PROPS["C04"] = {
         ("contracts.wordcode", "xdis.cross_dis:unpack_opargs_bytecode"),
     ],
     "assumptions": [],
+    "ground": [("ground.effects", "check_frames", {"prop": "C04", "roots": ['xdis.wordcode:findlabels', 'xdis.cross_dis:findlabels', 'xdis.cross_dis:findlabels_pre_310', 'xdis.bytecode:get_instructions_bytes']})],
 }
 
 PROPS["C03"] = {
@@ -77,6 +78,7 @@ PROPS["C15"] = {
         ("contracts.cross_dis", "xdis.cross_dis:xstack_effect"),
     ],
     "assumptions": ["closed forms of CPython's stack_effect are selected from a template family by agreement with the real interpreters on sampled operands (spec/stack_effect.py); operands >= 2**30 are outside the domain (C int overflow in CPython)"],
+    "ground": [("ground.effects", "check_frames", {"prop": "C15", "roots": ['xdis.std:make_std_api', 'xdis.cross_dis:xstack_effect']})],
 }
 
 PROPS["C08"] = {
